@@ -146,8 +146,13 @@ def register(w):
                 continue
             w.contract(fi.qualname, selfclass=[cls], params=params,
                        modifies={"renderobjinfo": ["entry.mimetype", "self.accesskeyidx", "self.postfieldidx"], "renderdirstart": ["self.accesskeyidx", "self.postfieldidx"]}.get(m, []),
-                       raises={}, returns=ret if not (m == "renderobjinfo" and cls != "BaseGopherProtocol") else "str", assumed=True,
-                       note="renderer: verified under C13/C06/C15; here only 'returns a string, raises nothing'", props=hprops)
+                       raises={}, returns=ret if not (m == "renderobjinfo" and cls != "BaseGopherProtocol") else "str",
+                       assumed=(cls == "BaseGopherProtocol" and m in ("renderobjinfo", "renderabstract")) or (m == "renderobjinfo" and cls in GPLUS),
+                       requires=(["self.accesskeyidx >= 0"] if (cls == "WAPProtocol" and m == "renderabstract") else []),
+                       loops=({0: dict(invariant=["True"], havoc=["retval", "line", "absentry"], types={"retval": "str"})} if m == "renderabstract" else {}),
+                       note="renderer as the shared directory writer sees it: returns a string (or None), raises nothing; the exact text is the subject of C13/C06/C15"
+                            + (" [abstract base method: 'MUST BE OVERRIDDEN', never selected by the protocol multiplexer]" if (m == "renderobjinfo" and cls == "BaseGopherProtocol") else ""),
+                       props=hprops)
     w.contract(BASE + "groksabstract", selfclass=["BaseGopherProtocol"] + GOPHER + HTTP + ["WAPProtocol", "GeminiProtocol", "SpartanProtocol"], modifies=[], raises={}, returns="bool",
                ensures=["result == False"], props=hprops + ["C06"])
     w.contract(P + "gopherp.py::GopherPlusProtocol.groksabstract", selfclass=GPLUS, modifies=[], raises={}, returns="bool",
